@@ -287,6 +287,24 @@ def check_C03(chk):
                 chk.failing_input("one-shot server scenarios did not complete on the %s build (%d of %d): %s" % (fl, seen, len(slines) + len(nlines), err[-300:]),
                                   {"build": fl}, key="srvdisc:%s:incomplete" % fl)
             chk.coverage.setdefault("server_disconnect_scenarios", {})[fl] = seen
+        # a sender PROCESS killed at every point of a multi-fragment send: 'disconnected' exactly when no other sender handle survives,
+        # whichever receive variant looks (crash driver; the remains of the interrupted message are no reason to report closure)
+        from . import props_conc as PCN
+        shapes = PCN.crash_shapes(4096)
+        ccases, cid = [], itertools.count(1)
+        for npk in (2, 3):
+            for k in range(0, 1 + (3 + npk) + 3):
+                for surv in (0, 1):
+                    ccases.append({"id": next(cid), "len": shapes[npk], "k": k, "survivor": surv, "natt": 0, "nreg": 0,
+                                   "observe": ["recv", "try", "timeout", "select"][(k + surv) % 4], "npk": npk, "S": 4096})
+        for it in PCN.run_crash(bins["default"], 4096, ccases):
+            why = PCN.crash_oracle(it)
+            if why:
+                c0 = it["case"]
+                chk.failing_input("a sender process killed before its call %d of a %d-packet send, %s: %s"
+                                  % (c0["k"], c0["npk"], "another sender handle survives" if c0["survivor"] else "no other sender", why),
+                                  {"input": c0, "child_progress": it["child"], "observed": it["rec"]}, key="c03crash:npk=%d k=%d s=%d" % (c0["npk"], c0["k"], c0["survivor"]))
+        chk.coverage["crashed_sender_scenarios"] = len(ccases)
         # receivers watched through a receiver set: after a burst of messages (more than any per-event budget) the last sender goes; the
         # set must deliver all of them and then report the closure instead of waiting for ever
         from . import props_set as PS
@@ -466,7 +484,12 @@ def check_C04(chk):
     prng = random.Random(chk.seed + 9)
     pcases = [{"id": i + 1, "mode": ["recv", "timed", "poll"][i % 3], "delay_us": prng.choice([300, 3000, 20000]), "nmsg": prng.choice([0, 0, 2]), "clones": prng.randint(1, 3)}
               for i in range(60 if thorough else 12)]
-    plines = ["id=%d how=polled mode=%s delay_us=%d nmsg=%d clones=%d" % (c["id"], c["mode"], c["delay_us"], c["nmsg"], c["clones"]) for c in pcases]
+    # ... and receivers serialised through a shared reference, the sending side keeping (and polling) the handle it was sent from: that
+    # handle is dead after the send; backlog and later traffic belong to the new owner
+    kcases = [{"id": 100 + i, "mode": ["recv", "timed", "poll"][i % 3], "delay_us": prng.choice([300, 3000]), "nmsg": [3, 0, 1, 5][i % 4], "clones": prng.randint(1, 3), "kept": True}
+              for i in range(24 if thorough else 8)]
+    pcases = pcases + kcases
+    plines = ["id=%d how=%s mode=%s delay_us=%d nmsg=%d clones=%d" % (c["id"], "kept" if c.get("kept") else "polled", c["mode"], c["delay_us"], c["nmsg"], c["clones"]) for c in pcases]
     for fl in ("default", "inprocess"):
         precs, _, prc, perr = C.run_harness(bins[fl], "wake", plines, shim=False, timeout=300)
         pby = {r["id"]: r for r in precs if r.get("kind") == "wake"}
@@ -475,6 +498,8 @@ def check_C04(chk):
             why = None
             if r is None:
                 why = "no record (process died): %s" % perr[-200:]
+            elif r.get("stolen"):
+                why = "the handle the receiver was sent from (kept by the sending side) still received %s after the transfer" % r["stolen"]
             elif r["out"] == "Hang":
                 why = "the transferred receiver's new owner waited for ever (watchdog 8 s)"
             elif r["got"] != list(range(c["nmsg"] + c["clones"])):
@@ -482,7 +507,7 @@ def check_C04(chk):
             elif r["out"] != "Disconnected":
                 why = "after its messages the transferred receiver reported %s instead of 'disconnected'" % r["out"]
             if why:
-                chk.failing_input("a receiver polled by its first owner and then sent inside a message: " + why, {"build": fl, "scenario": l, "observed": r}, key="polled:%s:%s" % (fl, l))
+                chk.failing_input(("a receiver sent inside a message through a shared reference: " if c.get("kept") else "a receiver polled by its first owner and then sent inside a message: ") + why, {"build": fl, "scenario": l, "observed": r}, key="polled:%s:%s" % (fl, l))
         chk.coverage.setdefault("polled_then_transferred_receivers", {})[fl] = len(pby)
     # a message that embeds endpoints and follows, on the same channel, a multi-packet message (itself embedding endpoints) whose sender
     # process died half-way: the later message must arrive with exactly its own endpoints (crash driver, every kill point)
